@@ -972,7 +972,7 @@ Section Runs.
     good owner n st -> wf_op owner n (ORun r) -> r_full r = false ->
     run_job v st r = (st', o) -> good owner n st'.
   Proof.
-    intros (Hn & Hown & Hts) (Hb & Hn1 & Hsingle & _) Hfull H.
+    intros (Hn & Hown & Hts) (Hb & Hn1 & Hsingle & _ & _) Hfull H.
     unfold run_job in H. destruct (early_fail r).
     { rewrite Hfull in H. injection H as <- <-. split; [exact Hn|]. split; [exact Hown | exact Hts]. }
     unfold run_body in H. rewrite Hfull in H. fold eqf dm in H.
@@ -1009,7 +1009,7 @@ Section Runs.
     intros Hg Hwf Hfull Hflt.
     destruct (run_job v st r) as [st' o] eqn:Hrun.
     pose proof (run_inc_safe _ _ _ _ Hg Hwf Hfull Hrun) as Hg'.
-    destruct Hg as (Hn & Hown & Hts). destruct Hwf as (Hb & Hn1 & Hsingle & _).
+    destruct Hg as (Hn & Hown & Hts). destruct Hwf as (Hb & Hn1 & Hsingle & _ & _).
     unfold run_job in Hrun. rewrite (early_fail_none _ Hflt) in Hrun.
     unfold run_body in Hrun. rewrite Hfull, Hflt in Hrun. fold eqf dm in Hrun.
     destruct Hts as [Hlen Hs].
@@ -1071,7 +1071,7 @@ Section Runs.
     r_full r = true -> run_job v st r = (st', OOk) ->
     st_srcs st' = st_srcs st /\ converged st' /\ foreign_deleted st' /\ good owner n st'.
   Proof.
-    intros Hn Hnt Hown (Hb & Hn1 & Hsingle & _) Hfull H.
+    intros Hn Hnt Hown (Hb & Hn1 & Hsingle & _ & _) Hfull H.
     unfold run_job in H. destruct (early_fail r); [discriminate|].
     unfold run_body in H. rewrite Hfull in H. fold eqf dm in H.
     destruct (r_union r) eqn:Hu.
@@ -1167,7 +1167,7 @@ Lemma run_idem owner n v st r :
   r_full r = false -> r_flt r = FNone ->
   run_job v st r = (st, OOk).
 Proof.
-  intros Hend Hn (Hb & Hn1 & Hsingle & _) Hfull Hflt.
+  intros Hend Hn (Hb & Hn1 & Hsingle & _ & _) Hfull Hflt.
   unfold run_job. rewrite (early_fail_none _ Hflt).
   unfold run_body. rewrite Hfull, Hflt. destruct st as [srcs sink tok]. cbn [st_srcs st_sink st_tok] in *.
   destruct (r_union r) eqn:Hu.
@@ -1245,7 +1245,8 @@ Section Histories.
     - pose proof (sinkwrite_good st es Hg Hwf) as G. rewrite H in G. exact G.
     - destruct Hwf.
     - cbn [step] in H. injection H as <- _. exact Hg.
-    - cbn [step] in H. destruct (run_job v st r) as [st1 o1] eqn:Hrun. injection H as <- <-.
+    - cbn [step] in H. unfold run_any in H. rewrite (proj2 (proj2 (proj2 (proj2 Hwf)))) in H.
+      destruct (run_job v st r) as [st1 o1] eqn:Hrun. injection H as <- <-.
       apply (run_safe st r st1 o1 Hg Hwf Hrun).
       destruct Hc as [Hc|Hc]; [now left|right].
       destruct (r_full r) eqn:Hfull; [right | now left].
@@ -1308,11 +1309,11 @@ Definition own0 : Z -> nat := fun _ => 0.
     Every run is fault-free and successful, the token is at the end, the views differ. *)
 Definition h_eqlen : list op :=
   [ OWrite 0 [mkV 1 0 0 true];
-    ORun (mkR false false 2 [true] FNone []);
+    ORun (mkR false false 2 [true] FNone [] false);
     OWrite 0 [mkV 1 4 0 false];
     OWrite 0 [mkV 1 13 0 false];
-    ORun (mkR false false 2 [true] FNone []);
-    ORun (mkR false false 2 [true] FNone []) ].
+    ORun (mkR false false 2 [true] FNone [] false);
+    ORun (mkR false false 2 [true] FNone [] false) ].
 
 Lemma refuted_eqlen :
   Forall (wf_op own0 1) h_eqlen
@@ -1334,9 +1335,9 @@ Qed.
 Definition h_fskeep : list op :=
   [ OWrite 0 [mkV 1 1 0 false];
     OWrite 0 [mkV 1 2 0 false];
-    ORun (mkR false false 1 [false] FNone []);
-    ORun (mkR true false 1 [false] (FKill 0) []);
-    ORun (mkR false false 1 [false] FNone []) ].
+    ORun (mkR false false 1 [false] FNone [] false);
+    ORun (mkR true false 1 [false] (FKill 0) [] false);
+    ORun (mkR false false 1 [false] FNone [] false) ].
 
 Lemma refuted_fskeep :
   Forall (wf_op own0 1) h_fskeep
